@@ -33,7 +33,7 @@ pub open spec fn g_init<T>() -> G<T> { G { dn: dn_init(), up: up_init(), f_args:
 
 //@invpart safe @C17 the upstream talkback is stored before it is used
 //@invpart data @C06 f is called on exactly the data received, in order
-//@invpart pull @C14 for_each keeps exactly one Pull outstanding while its source is live
+//@invpart pull @C14,C06 for_each keeps exactly one Pull outstanding while its source is live
 //@invpart term @C04 for_each never terminates its source
 pub open spec fn inv_safe<T>(h: Heap, g: G<T>, c: Cap) -> bool {
     &&& (up_greeted(g.up.phase) ==> h.talkback is Some)
